@@ -86,9 +86,9 @@ func demo(which string) {
 		fmt.Println(which, ": render finished without a miss:", r)
 		return
 	}
+	go func() { time.Sleep(50 * time.Millisecond); close(release) }()
 	put(1)
-	fmt.Println(which, ": ingest s1 acknowledged while the render is between miss and Set")
-	close(release)
+	fmt.Println(which, ": ingest s1 acknowledged (render was held between miss and Set for 50 ms)")
 	fmt.Println(which, ": concurrent render returned", <-done)
 	fmt.Println(which, ": render after everything returned:", get(), " (expected s1=1)")
 }
@@ -142,10 +142,13 @@ func demoSeg() {
 	<-entered[0] // writer: series listed in the dimension, segment being created
 	done := make(chan string)
 	go func() { done <- get() }()
-	<-entered[1] // render: missed the segment, about to Set its own empty one
+	select {
+	case <-entered[1]: // render: missed the segment, about to Set its own empty one (only possible without the fix)
+	case <-time.After(50 * time.Millisecond): // with the fix the render waits for the writer's miss to finish
+	}
 	close(release[0])
 	<-ack
-	fmt.Println("segments : ingest s1 acknowledged while the render is between miss and Set")
+	fmt.Println("segments : ingest s1 acknowledged")
 	close(release[1])
 	fmt.Println("segments : concurrent render returned", <-done)
 	fmt.Println("segments : render after everything returned:", get(), " (expected s1=1)")
@@ -156,4 +159,56 @@ func main() {
 	storage.VerifDisablePeriodicTasks()
 	demo("dimensions")
 	demoSeg()
+	random()
+}
+
+func random() {
+	bad := 0
+	for iter := 0; iter < 300; iter++ {
+		dir, _ := os.MkdirTemp("", "agentb-x-")
+		st, err := storage.New(&config.Server{StoragePath: dir, CacheEvictThreshold: 0.99, CacheEvictVolume: 0.1, MaxNodesSerialization: 2048, MaxNodesRender: 2048})
+		if err != nil {
+			panic(err)
+		}
+		key, _ := storage.ParseKey("directapp.cpu{}")
+		var wg sync.WaitGroup
+		stop := make(chan struct{})
+		wg.Add(1)
+		go func() {
+			defer wg.Done()
+			for {
+				select {
+				case <-stop:
+					return
+				default:
+				}
+				st.Get(&storage.GetInput{StartTime: time.Unix(1500000000, 0), EndTime: time.Unix(1700000000, 0), Key: key})
+			}
+		}()
+		n := 5
+		for i := 0; i < n; i++ {
+			t := tree.New()
+			t.Insert([]byte(fmt.Sprintf("s%d", i)), 1)
+			from := int64(1600000000 + (iter*7+i*13)%1000*10)
+			err := st.Put(&storage.PutInput{StartTime: time.Unix(from, 0), EndTime: time.Unix(from+10, 0), Key: key, Val: t, SpyName: "gospy", SampleRate: 100, Units: "samples", AggregationType: "sum"})
+			if err != nil {
+				panic(err)
+			}
+		}
+		close(stop)
+		wg.Wait()
+		out, _ := st.Get(&storage.GetInput{StartTime: time.Unix(1500000000, 0), EndTime: time.Unix(1700000000, 0), Key: key})
+		var tot uint64
+		got := []string{}
+		if out != nil && out.Tree != nil {
+			flatten(out.Tree.VerifDump(), nil, func(s string, v uint64) { tot += v; got = append(got, fmt.Sprintf("%s=%d", s, v)) })
+		}
+		if tot != uint64(n) {
+			bad++
+			fmt.Println("iter", iter, "LOST: got", got)
+		}
+		st.Close()
+		os.RemoveAll(dir)
+	}
+	fmt.Println("random stream: lost in", bad, "of 300 runs")
 }
